@@ -24,4 +24,4 @@ Deliverables, for each mutant k = 1..{n}, in directory /tmp/wt/{pid}/MUTANTS/m<k
   - patch.diff : produced with `git -C /tmp/wt/{pid} diff -- paramiko > MUTANTS/m<k>/patch.diff` while only that mutant is applied (it must apply with `git apply` to a clean checkout);
   - demo.py : the demonstration;
   - notes.md : 5-10 lines: what was changed, why it breaks the property, what it needs in order to manifest, and the exact commands you ran with their results (suite result with the mutant, demo result with and without).
-After finishing each mutant, restore the worktree with `git -C /tmp/wt/{pid} checkout -- paramiko` (keep MUTANTS/ untracked). Leave the worktree clean (apart from MUTANTS/) at the end. Do not create files elsewhere except temporary files under /tmp/wt/{pid}/. Make the mutants different from each other in mechanism (different function or different kind of fault). In your final message, list the mutants with one line each and confirm the verification results.""")
+After finishing each mutant, restore the worktree with `git -C /tmp/wt/{pid} checkout -- paramiko` (keep MUTANTS/ untracked). Leave the worktree clean (apart from MUTANTS/) at the end. NEVER use `git stash` (the stash is shared by all worktrees of this repository and other people work in sibling worktrees; use `git diff > file`, `git checkout -- paramiko`, `git apply file` instead). Do not create files elsewhere except temporary files under /tmp/wt/{pid}/. Make the mutants different from each other in mechanism (different function or different kind of fault). In your final message, list the mutants with one line each and confirm the verification results.""")
